@@ -7,7 +7,8 @@ Record variant := mkVar9 {
   v9_what : string;                 (* which option was changed *)
   v9_g : gcase;                     (* same schema and document, this variant's options and emitted modules *)
   v9_resp : list sobs;              (* one per response payload *)
-  v9_vars : list sobs               (* one per variables assignment *)
+  v9_vars : list sobs;              (* one per variables assignment *)
+  v9_envelope : sobs                (* [operationName; query] of the serialised request body *)
 }.
 
 Record c09case := mkC09 {
@@ -35,7 +36,7 @@ Fixpoint all2 {A B} (f : A -> B -> bool) (a : list A) (b : list B) : bool :=
   end.
 
 Definition compiled (v : variant) : bool :=
-  forallb (fun o => match o with SNoCompile => false | _ => true end) (v9_resp v ++ v9_vars v).
+  forallb (fun o => match o with SNoCompile => false | _ => true end) (v9_envelope v :: v9_resp v ++ v9_vars v).
 
 (* an externally defined enum is the consumer crate's type: opaque to Serde.v, so such variants are
    judged on the observations only (prop_c09) *)
@@ -49,7 +50,12 @@ Definition corr_serde (c : c09case) : bool :=
     | None => false
     | Some items =>
         all2 (fun p o => sobs_equiv (run_model items "ResponseData" (c9_with_ser c) p) o) (c9_payloads c) (v9_resp v) &&
-        all2 (fun a o => sobs_equiv (run_model items "Variables" true a) o) (c9_assignments c) (v9_vars v)
+        all2 (fun a o => sobs_equiv (run_model items "Variables" true a) o) (c9_assignments c) (v9_vars v) &&
+        (* the request names the operation as the document does *)
+        match v9_envelope v with
+        | SOk (JArr [JStr n; JStr _]) => String.eqb n (c9_op c)
+        | _ => false
+        end
     end) (c9_variants c).
 
 (* the property, on the observations of the compiled consumer crates alone: every variant that
@@ -60,7 +66,8 @@ Definition prop_c09 (c : c09case) : bool :=
   | base :: others =>
       negb (compiled base) ||
       forallb (fun v => negb (compiled v) ||
-                        (all2 sobs_equiv (v9_resp base) (v9_resp v) && all2 sobs_equiv (v9_vars base) (v9_vars v))) others
+                        (all2 sobs_equiv (v9_resp base) (v9_resp v) && all2 sobs_equiv (v9_vars base) (v9_vars v) &&
+                         sobs_equiv (v9_envelope base) (v9_envelope v))) others
   end.
 
 (* ... and the same statement about the models (a disagreement here that the consumer crates do
